@@ -26,6 +26,12 @@ type SchedCase struct {
 	// manual says it is recreated on demand)
 	LockMissing bool `json:"lock_missing,omitempty"`
 	BigLogMB    int  `json:"big_log_mb,omitempty"`
+	// TornTail: bytes of an unparsable fragment at the end of the log (crash residue)
+	TornTail int `json:"torn_tail,omitempty"`
+	// OldLock: the lock file's mtime is set hours into the past (nothing ever writes to it)
+	OldLock bool `json:"old_lock,omitempty"`
+	// Legacy: the store uses the legacy file name events.jsonl
+	Legacy bool `json:"legacy_name,omitempty"`
 }
 
 // genActions draws a controller schedule: every command is started once; a parked
@@ -174,7 +180,7 @@ func (sp schedSpec) judge(w *World, pre *Snapshot, cmds []ConcCmd) (viol []Viola
 	}
 	// the log must be a sequence of whole JSON lines
 	lines, rest := LogLines(final.Log)
-	if rest != "" {
+	if rest != "" && !strings.Contains(rest, `"id":"ZZZZZZ"`) {
 		viol = append(viol, Violation{sp.prop, fmt.Sprintf("log ends in an unterminated fragment after all commands returned: %q", clip(rest, 80))})
 	}
 	for i, l := range lines {
@@ -240,6 +246,7 @@ func runSchedTest(t *testing.T, sp schedSpec) {
 			if sc.LockMissing {
 				os.Remove(filepath.Join(w.Root, ".ergo", "lock"))
 			}
+			schedPre{TornTail: sc.TornTail, OldLock: sc.OldLock, Legacy: sc.Legacy}.apply(w.Root)
 			cmds := make([]ConcCmd, len(sc.Cmds))
 			for i, c := range sc.Cmds {
 				cmds[i] = ConcCmd{Op: c.Op, Park: c.Park}
@@ -319,6 +326,26 @@ func runSchedTest(t *testing.T, sp schedSpec) {
 			os.Remove(filepath.Join(w.Root, ".ergo", "lock"))
 			stats.Label("lock_file_missing_at_start")
 		}
+		pc := schedPre{}
+		if !lockMissing && pct(rt, 12, "lock.old") {
+			pc.OldLock = true
+		}
+		if pct(rt, 10, "legacy") {
+			pc.Legacy = true
+		}
+		if pct(rt, 10, "torn") {
+			pc.TornTail = between(rt, 5, 90, "torn.size")
+		}
+		pc.apply(w.Root)
+		if pc.OldLock {
+			stats.Label("lock_file_hours_old")
+		}
+		if pc.Legacy {
+			stats.Label("legacy_file_name")
+		}
+		if pc.TornTail > 0 {
+			stats.Label("torn_tail_at_start")
+		}
 		n := between(rt, sp.minN, sp.maxN, "conc.n")
 		var ops []Op
 		if sp.genOps != nil {
@@ -393,7 +420,7 @@ func runSchedTest(t *testing.T, sp schedSpec) {
 			}
 		}
 		if len(viol) > 0 {
-			WriteReplay(replayPath, SchedCase{Property: sp.prop, Engine: "SCHED", Test: sp.test, Setup: setup, Cmds: cmds, Actions: actions, Violations: viol, LockMissing: lockMissing, BigLogMB: bigMB})
+			WriteReplay(replayPath, SchedCase{Property: sp.prop, Engine: "SCHED", Test: sp.test, Setup: setup, Cmds: cmds, Actions: actions, Violations: viol, LockMissing: lockMissing, BigLogMB: bigMB, TornTail: pc.TornTail, OldLock: pc.OldLock, Legacy: pc.Legacy})
 			rt.Fatalf("%s violated: %v", sp.prop, viol)
 		}
 		stats.Eval()
@@ -436,7 +463,7 @@ func runSchedTest(t *testing.T, sp schedSpec) {
 }
 
 var claimSetup = Profile{Name: "claim-setup", Weights: map[string]int{"new_task": 38, "new_epic": 12, "set": 18, "sequence": 18, "plan": 4, "prune_yes": 2, "claim": 3},
-	BadRef: 0, Spoil: 0, Results: 0, EpicPct: 55, SeqEpicPct: 45, StatePool: []string{"todo", "done", "done", "blocked", "canceled"}, StatePct: 40, ClaimPct: -1}
+	BadRef: 0, Spoil: 0, Results: 0, EpicPct: 55, SeqEpicPct: 45, StatePool: []string{"todo", "done", "done", "blocked", "canceled", "doing", "error"}, StatePct: 40}
 
 func TestC01(t *testing.T) {
 	runSchedTest(t, schedSpec{
@@ -591,4 +618,32 @@ func TestC09Conc(t *testing.T) {
 		genOps: genPruneRace, minN: 2, maxN: 3,
 		setup: Profile{Name: "prune-setup", Weights: map[string]int{"new_task": 44, "new_epic": 12, "set": 30, "sequence": 8, "plan": 3}, EpicPct: 55, StatePool: []string{"done", "done", "canceled", "todo", "blocked"}, StatePct: 60, ClaimPct: -1},
 	})
+}
+
+// schedPre are store conditions that are not state: crash residue at the end of the log,
+// an old lock file, the legacy log name. Every command must cope with them.
+type schedPre struct {
+	TornTail int
+	OldLock  bool
+	Legacy   bool
+}
+
+func (p schedPre) apply(root string) {
+	if p.Legacy {
+		plans := filepath.Join(root, ".ergo", "plans.jsonl")
+		if _, err := os.Stat(plans); err == nil {
+			_ = os.Rename(plans, filepath.Join(root, ".ergo", "events.jsonl"))
+		}
+	}
+	if p.TornTail > 0 {
+		frag := `{"type":"state","ts":"2026-01-01T00:00:00Z","data":{"id":"ZZZZZZ","state":"do` + bigBody(p.TornTail)
+		if f, err := os.OpenFile(LogPath(root), os.O_APPEND|os.O_WRONLY, 0o644); err == nil {
+			f.WriteString(frag)
+			f.Close()
+		}
+	}
+	if p.OldLock {
+		old := time.Now().Add(-3 * time.Hour)
+		_ = os.Chtimes(filepath.Join(root, ".ergo", "lock"), old, old)
+	}
 }
